@@ -16,6 +16,11 @@ def pstr(v):
 
 
 def run(prog, chk):
+    url_parser_table(prog, chk)
+    _run(prog, chk)
+
+
+def _run(prog, chk):
     chk.explanation = (
         "(R6) getClientByUriScheme is evaluated with its constant scheme table for every row in upper, lower and mixed case, an unknown "
         "scheme and NULL: transport kind and replacement scheme equal the documented table and the comparison is case-insensitive. "
@@ -25,8 +30,11 @@ def run(prog, chk):
         "the URL composed without user-info (HTTP), host and port (TCP) or the path (file); the embedded user and key objects never "
         "appear in an address argument; the asynchronous service refuses file and unknown schemes. (R9) uriSplit writes user-info only "
         "into its user / key outputs and takes each other part from the parser field of that name; uriCompose emits scheme://, "
-        "[user:key@], host, :port (iff non-zero), /path, ?query, #fragment in that order.")
-    chk.not_decided = ["http_parser_parse_url itself"]
+        "[user:key@], host, :port (iff non-zero), /path, ?query, #fragment in that order. (R6 over abstract buffers) the bundled "
+        "http_parser_parse_url with its helpers is evaluated character by character on URIs built from the classes of the statement "
+        "(scheme spellings x user-info present/absent x host name / IPv4 / bracketed IPv6 x port absent / 8080 / 65535 x tail): each "
+        "reported field must be exactly that part of the URI (the host of an IPv6 literal without its brackets).")
+    chk.not_decided = ["URLs outside the classes evaluated (percent-encoding, empty user-info, exotic schemes)"]
     chk.rule("C20.schemes", "scheme table and case-insensitive lookup", floor=15)
     chk.rule("C20.dispatch", "transport dispatch, address and credential arguments (blocking and asynchronous)", floor=30)
     chk.rule("C20.split", "uriSplit output provenance; uriCompose order and host forms", floor=12)
@@ -246,3 +254,75 @@ def run(prog, chk):
             chk.ob("C20.nullable", fn.name, True, "%d search result(s), each compared with NULL before use" % n, loc=fn.loc(), fn=fn)
     if sites < 2:
         raise AnalysisBroken("only %d calls of string search functions found in the URI handling units" % sites)
+
+
+def url_parser_table(prog, chk):
+    """http_parser_parse_url (bundled) over the URL classes of the statement: scheme, optional user-info, host forms (name, IPv4,
+    bracketed IPv6), port, path / query / fragment.  Each field the parser reports must be exactly that part of the URL."""
+    import itertools
+    from ksirules.bufinterp import BufInterp
+    from ksirules.interp import inline_model
+    chk.rule("C20.parse", "URL parser: every reported field (scheme, user-info, host without brackets, port, path, query, fragment) is exactly "
+                          "that part of the URI, for all host forms with and without embedded credentials", floor=60)
+    fn = prog.fn("http_parser_parse_url", "http_parser.c")
+    bp, lp, cp, up = [p["n"] for p in fn.params]
+    K = prog.const
+    UF = {n: K("UF_" + n) for n in ("SCHEMA", "HOST", "PORT", "PATH", "QUERY", "FRAGMENT", "USERINFO")}
+    helpers = {"parse_url_char", "http_parse_host", "http_parse_host_char"}
+    deep = getattr(chk, "tier", "quick") == "thorough"
+    schemes = ("ksi", "KSI+tcp") + (("ksi+https", "http") if deep else ())
+    hosts = ("h.example", "10.0.0.1", "[::1]", "[2001:db8::7]")
+    ports = ("", ":8080", ":65535") + ((":1",) if deep else ())
+    tails = ("", "/p/q?x=1#f") + (("/", "/p?x") if deep else ())
+    n = 0
+    for sch, ui, host, port, tail in itertools.product(schemes, ("", "anon:s3cr3t@"), hosts, ports, tails):
+        url = "%s://%s%s%s%s" % (sch, ui, host, port, tail)
+        inputs = {bp: Ptr("URL"), lp: len(url), cp: 0, up: Ptr("U")}
+        for k, ch in enumerate(url):
+            inputs["URL[%d]" % k] = ord(ch)
+        inputs["URL[%d]" % len(url)] = 0
+        for f in range(8):
+            inputs["U->field_data[%d].off" % f] = 0
+            inputs["U->field_data[%d].len" % f] = 0
+
+        def strtoul_(I, p, node, args, url=url):
+            o = I.as_off(args[0])
+            if o is None:
+                return TOP
+            digits = ""
+            k = o.off
+            while k < len(url) and url[k].isdigit():
+                digits += url[k]
+                k += 1
+            return int(digits) if digits else 0
+        ov = {"strtoul": strtoul_, "__assert_fail": lambda I, p, n_, a: TOP}
+        I = BufInterp(fn, {"URL": len(url) + 1}, inputs=inputs, call_model=inline_model(prog, helpers, fallback=succeed_model(prog, ov)),
+                      on_unknown="stop", prog=prog, loop_bound=len(url) + 4)
+        paths = I.run()
+        chk.paths += len(paths)
+        n += 1
+        if len(paths) != 1 or paths[0].undetermined:
+            raise AnalysisBroken("http_parser_parse_url: evaluation not determined for %r: %s" % (url, [q.undetermined[:1] for q in paths]))
+        q = paths[0]
+        fs = I.read(q, "U->field_set")
+
+        def field(name):
+            if not isinstance(fs, int) or not (fs >> UF[name]) & 1:
+                return None
+            off, ln = I.read(q, "U->field_data[%d].off" % UF[name]), I.read(q, "U->field_data[%d].len" % UF[name])
+            return url[off:off + ln] if isinstance(off, int) and isinstance(ln, int) else "?"
+        got = {k: field(k) for k in UF}
+        got["port#"] = I.read(q, "U->port")
+        path, query, frag = None, None, None
+        t = tail
+        if "#" in t:
+            t, frag = t.split("#", 1)
+        if "?" in t:
+            t, query = t.split("?", 1)
+        path = t or None
+        want = {"SCHEMA": sch, "HOST": host.strip("[]"), "PORT": port[1:] or None, "PATH": path, "QUERY": query, "FRAGMENT": frag,
+                "USERINFO": ui[:-1] or None, "port#": int(port[1:]) if port else 0}
+        chk.ob("C20.parse", "parse_url[%s]" % url, q.ret == 0 and got == want,
+               "expected %s; source: status %s, %s" % (want, q.ret, got), loc=fn.loc(), fn=fn, nontrivial=(ui != "" and host.startswith("[")))
+    if n < 60:
+        raise AnalysisBroken("URL parser table: only %d URLs" % n)
